@@ -27,6 +27,7 @@ RULE = (
     'build(x) and build(y) are equal. Non-trivial: pair differs in aliasing only, or contains '
     'a mixed-key dict, or a default made explicit.'
 )
+RULE += (' ' + 'Also generated: kw-only parameters with defaults; the breaking rewrite alias_retarget (a later reference re-pointed at another already-visited object) and a nested-alias scenario.')
 ASSUMPTIONS = [
     'NaN leaves excluded (property excludes them)',
     'alias rewrites touch only non-internable objects; == deliberately ignores sharing of internables',
